@@ -274,31 +274,14 @@ func (h *harness) wiringTie() {
 	h.res.Case("node-wiring", true)
 	h.res.Hit("node-wiring-steps")
 	if !found || got != want {
-		// the order and the error handling of these steps is what the runner theorems assume of a start
-		// (`nodeStart`); a different plan may be perfectly sound, but then the model has to follow it
-		sig := "node-wiring-differs-from-model"
-		h.res.Mismatch(lib.Mismatch{Sig: sig, Input: path, Model: want, Impl: got})
-		// the two orderings the property itself depends on are decided here with the source as evidence
-		idx := func(l []string, name string) int {
-			for i, t := range l {
-				if strings.Contains(t, name) {
-					return i
-				}
-			}
-			return -1
-		}
-		for _, need := range []string{"deprecated!", "newRunner!", "run!"} {
-			if idx(inner, need) < 0 {
-				h.res.Violate(lib.Violation{Sig: "node-drops-the-error-of-a-migration-step",
-					What:   fmt.Sprintf("node/migration.go migrateIfNeeded: step %q is missing or its error is not returned (plan read from the source: %s) — a failed or refused upgrade would be reported as done", need, got),
-					Replay: map[string]any{"file": path, "plan": got, "expected": want}})
-				return
-			}
-		}
-		if o := idx(outer, "migrateFn"); o < 0 || !strings.HasSuffix(outer[len(outer)-1], "!") || (idx(outer, "serve(migrateFn)") >= 0 && !strings.HasSuffix(outer[idx(outer, "serve(migrateFn)")], "!")) {
-			h.res.Violate(lib.Violation{Sig: "node-drops-the-error-of-a-migration-step",
-				What:   fmt.Sprintf("node/migration.go migrateIfNeeded: the result of migrateFn (directly or under RunWithServer) is not returned (plan read from the source: %s)", got),
-				Replay: map[string]any{"file": path, "plan": got, "expected": want}})
-		}
+		// Round 6: the functions of node/migration.go are now RUN (nodewiring.go: every step's failure is produced on
+		// the real code — failing deprecated step, missing L1 head, refusing NewRunner, failing / cancelled Run, with
+		// and without --http — and the property's oracles decide). A plan the source reader does not recognise (another
+		// shape of the same wiring, e.g. `if !config.HTTP { return migrateFn() }`) is therefore no longer a finding by
+		// itself: it is shown in the histogram and the notes only.
+		h.res.Hit("node-wiring-source-shape-not-the-models-plan")
+		h.res.Note("node/migration.go read at source level gives the plan %q, the model's nodePlan is %q (decided by the executed node-histories families)", got, want)
+		return
 	}
+	h.res.Hit("node-wiring-source-plan-agrees")
 }
